@@ -29,6 +29,8 @@ type Access struct {
 	Write bool
 	Held  int
 	Pos   token.Pos
+	Alias bool // the access goes through a local that was assigned the (map-typed) field: m := this.m ... m[k]
+	Elem  bool // a write to an element (this.m[k] = v) rather than a replacement of the field
 }
 
 // CallSite is one call of a method of the same type on the same receiver.
@@ -40,17 +42,17 @@ type CallSite struct {
 
 // FuncLocks is the result for one method.
 type FuncLocks struct {
-	FI         *core.FuncInfo
-	Name       string
-	Exported   bool
-	LockSites  []token.Pos // Lock() calls on the receiver's mutex
-	Accesses   []Access
-	Calls      []CallSite
-	Unpaired   []string // problems: exit with lock held, unlock without lock, state differs between paths
-	EntryHeld  bool
-	Waits      []WaitSite
-	FuncCalls  []FieldCall // calls through function-typed fields (callbacks) with held state
-	EnumCtors  []EnumCtor
+	FI        *core.FuncInfo
+	Name      string
+	Exported  bool
+	LockSites []token.Pos // Lock() calls on the receiver's mutex
+	Accesses  []Access
+	Calls     []CallSite
+	Unpaired  []string // problems: exit with lock held, unlock without lock, state differs between paths
+	EntryHeld bool
+	Waits     []WaitSite
+	FuncCalls []FieldCall // calls through function-typed fields (callbacks) with held state
+	EnumCtors []EnumCtor
 }
 
 type WaitSite struct {
@@ -73,14 +75,15 @@ type EnumCtor struct {
 
 // TypeLocks is the analysis of one struct type with a mutex.
 type TypeLocks struct {
-	Type      *types.Named
-	LockField string
-	CondLock  bool // the mutex is reached through a *sync.Cond field (f.L)
-	Funcs     map[*types.Func]*FuncLocks
-	Order     []*FuncLocks
-	Fields    []string
-	Written   map[string]bool // fields written outside constructors
-	PkgLock   types.Object    // when set: the guarding mutex is this package-level variable
+	Type        *types.Named
+	LockField   string
+	CondLock    bool // the mutex is reached through a *sync.Cond field (f.L)
+	Funcs       map[*types.Func]*FuncLocks
+	Order       []*FuncLocks
+	Fields      []string
+	Written     map[string]bool // fields written outside constructors
+	ElemWritten map[string]bool // fields whose elements are written in place (f[k] = v, delete(f, k))
+	PkgLock     types.Object    // when set: the guarding mutex is this package-level variable
 }
 
 // FindLockField returns the name of the struct's sync.Mutex/RWMutex/*sync.Cond field.
@@ -103,8 +106,8 @@ func FindLockField(t *types.Named) (name string, cond bool) {
 }
 
 type analyzer struct {
-	p   *core.Program
-	tl  *TypeLocks
+	p  *core.Program
+	tl *TypeLocks
 }
 
 // Analyze runs the per-method dataflow for all methods of t (iterating held-at-entry to a fixpoint).
@@ -115,7 +118,7 @@ func Analyze(p *core.Program, t *types.Named) *TypeLocks {
 // AnalyzeWith is Analyze with a package-level mutex variable as the guarding lock.
 func AnalyzeWith(p *core.Program, t *types.Named, pkgLock types.Object) *TypeLocks {
 	lf, cond := FindLockField(t)
-	tl := &TypeLocks{Type: t, LockField: lf, CondLock: cond, Funcs: map[*types.Func]*FuncLocks{}, Written: map[string]bool{}, PkgLock: pkgLock}
+	tl := &TypeLocks{Type: t, LockField: lf, CondLock: cond, Funcs: map[*types.Func]*FuncLocks{}, Written: map[string]bool{}, ElemWritten: map[string]bool{}, PkgLock: pkgLock}
 	if pkgLock != nil {
 		tl.LockField, tl.CondLock = "", false
 	}
@@ -171,6 +174,9 @@ func AnalyzeWith(p *core.Program, t *types.Named, pkgLock types.Object) *TypeLoc
 		for _, ac := range fl.Accesses {
 			if ac.Write {
 				tl.Written[ac.Field] = true
+			}
+			if ac.Elem {
+				tl.ElemWritten[ac.Field] = true
 			}
 		}
 	}
@@ -266,6 +272,41 @@ func (a *analyzer) analyzeFunc(fi *core.FuncInfo, entryHeld bool) *FuncLocks {
 		stack = append(stack, n)
 		return true
 	})
+	// locals aliasing a map-typed field of the receiver (m := this.m): a use of the local touches the
+	// same map, whatever the lock state was when the alias was taken
+	aliasOf := map[types.Object]string{}
+	aliasDef := map[*ast.Ident]bool{}
+	ast.Inspect(fi.Decl.Body, func(n ast.Node) bool {
+		as, ok := n.(*ast.AssignStmt)
+		if !ok || len(as.Lhs) != len(as.Rhs) {
+			return true
+		}
+		for i, l := range as.Lhs {
+			id, ok := l.(*ast.Ident)
+			if !ok || id.Name == "_" {
+				continue
+			}
+			sel, ok := ast.Unparen(as.Rhs[i]).(*ast.SelectorExpr)
+			if !ok {
+				continue
+			}
+			if rid, ok := ast.Unparen(sel.X).(*ast.Ident); !ok || info.ObjectOf(rid) != recv || recv == nil {
+				continue
+			}
+			fv, ok := info.Uses[sel.Sel].(*types.Var)
+			if !ok || !fv.IsField() {
+				continue
+			}
+			if _, isMap := fv.Type().Underlying().(*types.Map); !isMap {
+				continue
+			}
+			if o := info.ObjectOf(id); o != nil {
+				aliasOf[o] = fv.Name()
+				aliasDef[id] = true
+			}
+		}
+		return true
+	})
 	type rec struct {
 		accesses []Access
 		calls    []CallSite
@@ -298,14 +339,20 @@ func (a *analyzer) analyzeFunc(fi *core.FuncInfo, entryHeld bool) *FuncLocks {
 				continue
 			}
 			writes := map[*ast.SelectorExpr]bool{}
+			elemWrites := map[*ast.SelectorExpr]bool{}
 			markWrite := func(e ast.Expr) {
+				elem := false
 				for {
 					switch v := ast.Unparen(e).(type) {
 					case *ast.SelectorExpr:
 						writes[v] = true
+						if elem {
+							elemWrites[v] = true
+						}
 						e = v.X
 						continue
 					case *ast.IndexExpr:
+						elem = true
 						e = v.X
 						continue
 					case *ast.StarExpr:
@@ -323,6 +370,10 @@ func (a *analyzer) analyzeFunc(fi *core.FuncInfo, entryHeld bool) *FuncLocks {
 					}
 				case *ast.IncDecStmt:
 					markWrite(v.X)
+				case *ast.CallExpr:
+					if id, ok := v.Fun.(*ast.Ident); ok && (id.Name == "delete" || id.Name == "clear") && len(v.Args) > 0 {
+						markWrite(&ast.IndexExpr{X: v.Args[0]})
+					}
 				case *ast.FuncLit:
 					return false
 				}
@@ -358,6 +409,9 @@ func (a *analyzer) analyzeFunc(fi *core.FuncInfo, entryHeld bool) *FuncLocks {
 									ws.InFor = true
 									if f.Cond != nil {
 										ws.ForCond = types.ExprString(f.Cond)
+									} else if c := condExit(f); c != nil {
+										// for { if ready { break }; Wait() }: the loop leaves only through a test
+										ws.ForCond = "!(" + types.ExprString(c) + ")"
 									}
 								}
 								r.waits = append(r.waits, ws)
@@ -377,8 +431,12 @@ func (a *analyzer) analyzeFunc(fi *core.FuncInfo, entryHeld bool) *FuncLocks {
 				case *ast.SelectorExpr:
 					if id, ok := ast.Unparen(v.X).(*ast.Ident); ok && info.ObjectOf(id) == recv {
 						if fv, ok := info.Uses[v.Sel].(*types.Var); ok && fv.IsField() && fv.Name() != a.tl.LockField {
-							r.accesses = append(r.accesses, Access{Field: fv.Name(), Write: writes[v], Held: st.held, Pos: v.Pos()})
+							r.accesses = append(r.accesses, Access{Field: fv.Name(), Write: writes[v], Held: st.held, Pos: v.Pos(), Elem: elemWrites[v]})
 						}
+					}
+				case *ast.Ident:
+					if f, ok := aliasOf[info.ObjectOf(v)]; ok && !aliasDef[v] {
+						r.accesses = append(r.accesses, Access{Field: f, Held: st.held, Pos: v.Pos(), Alias: true})
 					}
 				}
 				return true
@@ -488,4 +546,36 @@ func ShortName(n string) string {
 		return n[i+1:]
 	}
 	return n
+}
+
+// condExit: for a `for { ... }` without a header condition, the condition of the conditional exit
+// (if c { break | return }) at the top level of its body, provided the body has no unconditional
+// exit at its top level. nil when the loop has no such single tested way out.
+func condExit(f *ast.ForStmt) ast.Expr {
+	var cond ast.Expr
+	for _, st := range f.Body.List {
+		switch v := st.(type) {
+		case *ast.IfStmt:
+			if v.Else != nil || len(v.Body.List) == 0 {
+				continue
+			}
+			switch l := v.Body.List[len(v.Body.List)-1].(type) {
+			case *ast.BranchStmt:
+				if l.Tok == token.BREAK && l.Label == nil && cond == nil {
+					cond = v.Cond
+				}
+			case *ast.ReturnStmt:
+				if cond == nil {
+					cond = v.Cond
+				}
+			}
+		case *ast.BranchStmt:
+			if v.Tok == token.BREAK || v.Tok == token.GOTO {
+				return nil
+			}
+		case *ast.ReturnStmt:
+			return nil
+		}
+	}
+	return cond
 }
